@@ -100,6 +100,10 @@ fn main() {
     if let Err(e) = r {
         rep.notes.push(format!("HARNESS-ERROR: {e}"));
     }
+    let tol = ctl::OFF_GRID_TOLERATED.load(std::sync::atomic::Ordering::Relaxed);
+    if tol > 0 {
+        rep.notes.push(format!("off-grid documents on which model and implementation agree up to the rounding of the third decimal (0.0025): {tol}"));
+    }
     let text = serde_json::to_string_pretty(&rep.to_json()).unwrap();
     if out.is_empty() {
         println!("{text}");
